@@ -10,8 +10,10 @@
       (or the first key info when none is configured), with a non-empty KeyId, and its public key is what `READKEY <that KeyId>` returned.
     * `scd_signature_matches_key`     — the PKSIGN transaction of `scdKey.Sign` names exactly that KeyId (any daemon); and in every
       schedule of concurrent calls the signature a call receives is made by ITS key (from C14's `scd_sign_pair_atomic`).
-    * `scd_getkey_nil_deref`          — the no-match case is NOT an error but a nil dereference (`key.KeyId` with `key == nil`):
-      finding F-SCD-1; `scd_getkey_total_full` is refuted, `scd_getkey_total_partial` is what holds.
+    * `scd_getkey_total`, `scd_getkey_unmatched_is_error` — (the code as it is, commit e11c4f9) GetKey never panics; a configured id that
+      matches no key of the token is the error "key … not found in token …".
+    * `scd_getkey_nil_deref_orig`     — BEFORE e11c4f9 the no-match case was a nil dereference (`key.KeyId` with `key == nil`): finding
+      F-SCD-1, fixed; `scd_getkey_total_orig_full` is refuted for `getKeyOrig`, `scd_getkey_total_partial_orig` is what held.
 -/
 import Relic.Proofs.ScdToken
 import Relic.Props.C14_Scd
@@ -24,7 +26,7 @@ theorem scd_getkey_selects_configured {σ} (dm : Daemon σ) (t : Token σ) (name
     ∃ kc, t.conf.keys.find? (·.name = name) = some kc ∧ k.key ∈ t.keyInfos ∧ k.key.keyId ≠ [] ∧
       (kc.id ≠ [] → k.key.keyId = kc.id) ∧ (kc.id = [] → t.keyInfos.head? = some k.key) ∧
       (scdPublic dm t.sock.conn k.key).2 = .ok k.pub := by
-  unfold getKey at h
+  unfold getKey getKeyWith at h
   cases hk : t.conf.keys.find? (·.name = name) with
   | none => simp [hk] at h
   | some kc =>
@@ -93,8 +95,17 @@ theorem scd_signature_key_in_every_schedule (calls : Nat → Sched.Call) (sched 
 
 /-! ### the no-match case -/
 
-/-- the full statement: GetKey returns a key or an error -/
-def scd_getkey_total_full : Prop := ∀ (t : Token Script) (name : String), (getKey scripted t name).2.isPanic = false
+/-- **scd_getkey_total** (the code as it is): GetKey returns a key, an error, or blocks on a silent daemon — never a panic -/
+theorem scd_getkey_total {σ} (dm : Daemon σ) (t : Token σ) (name : String) : (getKey dm t name).2.isPanic = false :=
+  getKey_no_panic dm t name
+
+/-- **scd_getkey_unmatched_is_error**: "a key lookup that resolves to no key … results in an error" -/
+theorem scd_getkey_unmatched_is_error {σ} (dm : Daemon σ) (t : Token σ) (name : String) (kc : KeyConf)
+    (h1 : t.conf.keys.find? (·.name = name) = some kc) (h2 : findKey t.keyInfos kc.id = none) :
+    (getKey dm t name).2 = .fail (.msg "notfound") := by rw [getKey_unmatched dm t name kc h1 h2]
+
+/-- the statement for the code BEFORE e11c4f9 -/
+def scd_getkey_total_orig_full : Prop := ∀ (t : Token Script) (name : String), (getKeyOrig scripted t name).2.isPanic = false
 
 def scdTcDemo : TokenConf :=
   { serial := [], pin := some (ascii "123456"), getter := none,
@@ -110,24 +121,33 @@ def scdOutcome {α} : Out α → String
   | .panic s => "panic:" ++ s
   | .block => "block"
 
-/-- **scd_getkey_nil_deref** (finding F-SCD-1): the token has OPENPGP.1 and OPENPGP.3; a key configured with id OPENPGP.9, or with
-    the id in the wrong case, crashes the lookup; the same token answers a matching id and the empty id -/
-theorem scd_getkey_nil_deref :
+/-- **scd_getkey_nil_deref_orig** (finding F-SCD-1, fixed by e11c4f9): the token has OPENPGP.1 and OPENPGP.3; a key configured with id
+    OPENPGP.9, or with the id in the wrong case, crashed the lookup; the same token answered a matching id and the empty id -/
+theorem scd_getkey_nil_deref_orig :
     (match openToken scripted scdDemoScript scdTcDemo with
-     | (_, .ok t) => [scdOutcome (getKey scripted t "k9").2, scdOutcome (getKey scripted t "lower").2, scdOutcome (getKey scripted t "k1").2,
-                      scdOutcome (getKey scripted t "first").2, scdOutcome (getKey scripted t "undefined").2]
+     | (_, .ok t) => [scdOutcome (getKeyOrig scripted t "k9").2, scdOutcome (getKeyOrig scripted t "lower").2, scdOutcome (getKeyOrig scripted t "k1").2,
+                      scdOutcome (getKeyOrig scripted t "first").2, scdOutcome (getKeyOrig scripted t "undefined").2]
      | _ => []) =
     ["panic:scdtoken.GetKey:key.KeyId (nil key)", "panic:scdtoken.GetKey:key.KeyId (nil key)", "ok", "ok", "err:nokeyconf"] := by
   decide +kernel
 
-theorem scd_getkey_nil_deref_panics :
+/-- the same lookups on the code as it is: errors -/
+theorem scd_getkey_unmatched_demo :
     (match openToken scripted scdDemoScript scdTcDemo with
-     | (_, .ok t) => (getKey scripted t "k9").2.isPanic
+     | (_, .ok t) => [scdOutcome (getKey scripted t "k9").2, scdOutcome (getKey scripted t "lower").2, scdOutcome (getKey scripted t "k1").2,
+                      scdOutcome (getKey scripted t "first").2, scdOutcome (getKey scripted t "undefined").2]
+     | _ => []) =
+    ["err:notfound", "err:notfound", "ok", "ok", "err:nokeyconf"] := by
+  decide +kernel
+
+theorem scd_getkey_nil_deref_panics_orig :
+    (match openToken scripted scdDemoScript scdTcDemo with
+     | (_, .ok t) => (getKeyOrig scripted t "k9").2.isPanic
      | _ => false) = true := by decide +kernel
 
-theorem scd_getkey_total_full_false : ¬ scd_getkey_total_full := by
+theorem scd_getkey_total_orig_full_false : ¬ scd_getkey_total_orig_full := by
   intro h
-  have hw := scd_getkey_nil_deref_panics
+  have hw := scd_getkey_nil_deref_panics_orig
   cases ho : openToken scripted scdDemoScript scdTcDemo with
   | mk s o =>
     rw [ho] at hw
@@ -140,15 +160,15 @@ theorem scd_getkey_total_full_false : ¬ scd_getkey_total_full := by
     | panic x => simp at hw
     | block => simp at hw
 
-/-- what holds: when every configured id is the KeyId of some key info of the token (or empty, the token having learnt at least
-    one key — which Learn guarantees), GetKey never panics, on any daemon -/
-theorem scd_getkey_total_partial {σ} (dm : Daemon σ) (t : Token σ) (name : String)
+/-- what held before the repair: when every configured id is the KeyId of some key info of the token (or empty, the token having
+    learnt at least one key — which Learn guarantees), the original GetKey did not panic either, on any daemon -/
+theorem scd_getkey_total_partial_orig {σ} (dm : Daemon σ) (t : Token σ) (name : String)
     (hcfg : ∀ kc, t.conf.keys.find? (·.name = name) = some kc → findKey t.keyInfos kc.id ≠ none) :
-    (getKey dm t name).2.isPanic = false := by
-  cases hp : (getKey dm t name).2.isPanic with
+    (getKeyOrig dm t name).2.isPanic = false := by
+  cases hp : (getKeyOrig dm t name).2.isPanic with
   | false => rfl
   | true =>
-    obtain ⟨kc, h1, h2⟩ := (getKey_panic_iff dm t name).mp hp
+    obtain ⟨kc, h1, h2⟩ := (getKeyOrig_panic_iff dm t name).mp hp
     exact absurd h2 (hcfg kc h1)
 example : ∃ (t : Token Script), ∀ kc, t.conf.keys.find? (·.name = "k1") = some kc → findKey t.keyInfos kc.id ≠ none :=
   ⟨{ sock := ⟨{ st := ⟨[]⟩, inbuf := [], closed := false, wdead := false, isNil := false, log := [] }, []⟩, sockNil := false,
